@@ -54,7 +54,11 @@ def gen_cases(engine, rng, tier):
             cfg = 'relay=none;ip=v4;databytes=%d;qq=ok,ok' % lim
         elif kind == 'sizeparam':
             lim = rng.choice([150, 400])
-            chunks = [b'EHLO c.example.net\r\n', b'MAIL FROM:<a@example.net> SIZE=%d\r\n' % (lim + rng.choice([-1, 0, 1, 1000])),
+            # around the limit, and values around 2^31, 2^32, 2^63, 2^64 and beyond (strtoul saturates): far over every limit,
+            # whatever the width and signedness of the type they are compared in
+            huge = [2**31 - 1, 2**31, 2**32 - 1, 2**32, 2**32 + lim, 2**63 - 1, 2**63, 2**63 + 1, 2**64 - 1, 2**64, 2**64 + lim - 1, 10**20 - 1]
+            sz = lim + rng.choice([-1, 0, 1, 1000]) if rng.random() < 0.6 else rng.choice(huge)
+            chunks = [b'EHLO c.example.net\r\n', b'MAIL FROM:<a@example.net> SIZE=%d\r\n' % sz,
                       session_gen.rcpt(rng, 'ok'), b'DATA\r\n', b'x\r\n.\r\n']
             cfg = 'relay=none;ip=v4;databytes=%d;qq=ok,ok' % lim
         elif kind == 'hops':
